@@ -22,34 +22,7 @@ def adversarial_names(prefix, name, all_names):
     return out
 
 
-class SymMath:
-    """math stand-in: pi, sqrt and log(2) as symbolic constants with their defining equations."""
-
-    def __getattr__(self, name):
-        import math
-
-        return getattr(math, name)
-
-    @property
-    def pi(self):
-        from symex import core as C
-        from symex import terms as T
-
-        return C.R(T.PI())
-
-    def sqrt(self, x):
-        from symex import core as C
-
-        return C.rsqrt(C.R.lift(x), nonneg=True)
-
-    def log(self, x):
-        from symex import core as C
-
-        x = C.R.lift(x)
-        if x.is_const() and x.const_value() == 2:
-            r = C.sym_var('ln2', sign='+')
-            return r
-        raise C.Unsupported('log of other values')
+from symsc.mathshim import SymMath  # noqa: E402,F401
 
 
 def _load():
